@@ -80,7 +80,11 @@ func c12Cbuf(c *Ctx) {
 	type job struct{ fill, n int }
 	var jobs []job
 	for fill := 0; fill <= 4; fill++ {
-		for n := 0; n <= 12; n++ {
+		maxN := 12
+		if c.Tier == "thorough" {
+			maxN = 48
+		}
+		for n := 0; n <= maxN; n++ {
 			jobs = append(jobs, job{fill, n})
 		}
 	}
